@@ -87,6 +87,9 @@ CASES = [
      "back = eval(kw)\nmsg = txt + ' at %s' % str({(0, 1)})\nhead, tail = msg.rsplit(' at ', 1)\n"
      "r = [back['tolerance'], len(back['mask']), int(back['target'] is None), int(kind == 'VTR'), int(head == txt), len(eval(tail)), int((0, 1) in eval(tail)), a]", dict(a='real')),
     ('exec-compile-of-concrete-text', "ns = {'v': a}\ncode = compile('w = v * 2; from math import sqrt as root', '<string>', 'exec')\nexec(code, ns)\nr = [ns['w'], float(ns['root'](4.0))]", dict(a='real')),
+    ('zero-d-array-of-a-scalar', 'q = numpy.asarray(a, dtype="float64")\nk = numpy.asarray(3)\nv = numpy.asarray([a, b]) * (1 - q)\n'
+     'r = [len(q.shape), q.ndim, q.size, len(k.shape), int(hasattr(2.5, "shape")), float(-q), float(q.tolist())] + v.tolist()', dict(a='real', b='real')),
+    ('negated-mask-selection-assigned', 'm = numpy.array([a, 0.0, b])\nq = numpy.array([c, d, e])\nm[m == 0] = -q[m == 0]\nr = m.tolist()', dict(a='real', b='real', c='real', d='real', e='real')),
     ('symbolic-int-array-index', 'S = numpy.array([-1.0, 0.0, 2.0])\ncnt = numpy.sum(a > S)\nlo = max(0, cnt - 1)\nr = S[numpy.array([lo, lo])].tolist() + [int(cnt)]', dict(a='real')),
 ]
 
